@@ -13,6 +13,13 @@
 (*     list), a dirty flag (shouldRebuild), unlockedCollect (a sequence    *)
 (*     WITH duplicates, blocked ones filtered at collect time only),       *)
 (*     unlockedSort (sort, then the two-index adjacent de-duplication).    *)
+(*     The cache of an owner is created piecewise (cache[o], then .v4 and  *)
+(*     .v6 separately, by whichever call first needs them): `alc` records  *)
+(*     which per-family caches exist, so that the histories distinguish an *)
+(*     owner whose IPv6 entries came from a lighthouse message (both       *)
+(*     families' caches exist) from a static host with IPv6 addresses only *)
+(*     (no v4 cache at all), learned-only and relays-only owners.  `rs`    *)
+(*     notes the shape of every owner reset since the last rebuild.        *)
 (* Link            : Link -- machine list = reference list after every     *)
 (*     rebuild, except while `lag` (the blocked list was cleared without   *)
 (*     marking the list dirty: the machine keeps the old exclusions until  *)
@@ -80,6 +87,8 @@ RefRelays(T, st) == SortRel(T, RefRelaySet(st))
 EmptySt == [rep |-> [o \in Owners |-> [f \in F46 |-> <<>>]],      \* cache[o].v4/v6.reported
             lrn |-> [o \in Owners |-> [f \in F46 |-> 0]],         \* cache[o].v4/v6.learned (0 = nil)
             rly |-> [o \in Owners |-> <<>>],                      \* cache[o].relay
+            alc |-> [o \in Owners |-> [f \in F46 |-> FALSE]],     \* cache[o].v4 / .v6 # nil
+            rs  |-> <<>>,                                         \* shapes of the owners reset since the last rebuild
             dns |-> {}, bad |-> {},                               \* hr.ips, badRemotes
             dirty |-> FALSE,                                      \* shouldRebuild
             addrs |-> <<>>, rels |-> <<>>,                        \* r.addrs, r.relays
@@ -116,10 +125,25 @@ MDedupe(s) == IF Len(s) < 2 THEN s ELSE DedupLoop(s, 1, 2)
 Rebuild(T, st, p) ==
     LET c == IF st.dirty THEN CollectSeq(T, st) ELSE st.addrs
         r == IF st.dirty THEN CollectRel(st) ELSE st.rels
-    IN [st EXCEPT !.dirty = FALSE,
+    IN [st EXCEPT !.dirty = FALSE, !.rs = <<>>,
                   !.addrs = Decode(MDedupe(InsSort(Codes(T, p, c)))),
                   !.rels  = SortRel(T, Range(r)),
                   !.lag   = IF st.dirty THEN FALSE ELSE @]
+
+\* what an owner holds in this list: reported families, which per-family caches exist, learned slots, relays
+Shape(st, o) ==
+    LET r4 == st.rep[o][4] # <<>>
+        r6 == st.rep[o][6] # <<>>
+        fams(a, b) == IF a /\ b THEN "v4v6" ELSE IF a THEN "v4" ELSE IF b THEN "v6" ELSE "none"
+    IN "rep-" \o fams(r4, r6) \o ".cache-" \o fams(st.alc[o][4], st.alc[o][6])
+       \o ".lrn-" \o fams(st.lrn[o][4] # 0, st.lrn[o][6] # 0) \o ".rly-" \o (IF st.rly[o] # <<>> THEN "yes" ELSE "no")
+
+\* unlockedPrependV4/V6 of every address of a list, one after the other
+RECURSIVE PrependAll(_, _, _, _)
+PrependAll(T, st, o, L) ==
+    IF L = <<>> THEN st
+    ELSE PrependAll(T, [st EXCEPT !.rep[o][WireFam(T, Head(L))] = First(<<Head(L)>> \o @, MaxRemotes),
+                                  !.alc[o][WireFam(T, Head(L))] = TRUE], o, Tail(L))
 
 SplitFam(T, L, f) == First(SelectSeq(L, LAMBDA x : WireFam(T, x) = f), MaxRemotes)
 
@@ -127,15 +151,24 @@ SplitFam(T, L, f) == First(SelectSeq(L, LAMBDA x : WireFam(T, x) = f), MaxRemote
 Apply(T, st, op) ==
     LET k == op[1] IN
     CASE k = "rep"     -> \* unlockedSetV4 + unlockedSetV6 (a lighthouse message always replaces both families)
-            [st EXCEPT !.rep[op[2]] = [f \in F46 |-> SplitFam(T, op[3], f)], !.dirty = TRUE]
+            [st EXCEPT !.rep[op[2]] = [f \in F46 |-> SplitFam(T, op[3], f)], !.alc[op[2]] = [f \in F46 |-> TRUE], !.dirty = TRUE]
       [] k = "learn"   -> \* LearnRemote
-            [st EXCEPT !.lrn[op[2]][WireFam(T, op[3])] = op[3], !.dirty = TRUE]
+            [st EXCEPT !.lrn[op[2]][WireFam(T, op[3])] = op[3], !.alc[op[2]][WireFam(T, op[3])] = TRUE, !.dirty = TRUE]
       [] k = "relay"   -> \* unlockedSetRelay
             [st EXCEPT !.rly[op[2]] = First(op[3], MaxRemotes), !.dirty = TRUE]
       [] k = "prepend" -> \* unlockedPrependV4/V6 (static hosts)
-            [st EXCEPT !.rep[op[2]][WireFam(T, op[3])] = First(<<op[3]>> \o @, MaxRemotes), !.dirty = TRUE]
-      [] k = "reset"   -> \* ResetForOwner
-            [st EXCEPT !.rep[op[2]] = [f \in F46 |-> <<>>], !.dirty = TRUE]
+            [st EXCEPT !.rep[op[2]][WireFam(T, op[3])] = First(<<op[3]>> \o @, MaxRemotes),
+                       !.alc[op[2]][WireFam(T, op[3])] = TRUE, !.dirty = TRUE]
+      [] k = "reset"   -> \* ResetForOwner: everything the owner REPORTED is withdrawn (both families, whichever caches exist);
+                          \* its learned slots and relays stay
+            [st EXCEPT !.rep[op[2]] = [f \in F46 |-> <<>>], !.dirty = TRUE, !.rs = Append(@, Shape(st, op[2]))]
+      [] k = "static"  -> \* (re)load of static_host_map for this host, <<"static", ourselves, literals>>: LightHouse.reload resets
+                          \* what ourselves reported (ResetForOwner), then addStaticRemotes installs the literals as the resolver's
+                          \* results (unmapped) and prepends each under ourselves; an entry that left the map only loses its results
+            LET L  == Canons(T, op[3])
+                s1 == [st EXCEPT !.rep[op[2]] = [f \in F46 |-> <<>>], !.dirty = TRUE, !.dns = Range(L),
+                                 !.rs = Append(@, Shape(st, op[2]))]
+            IN PrependAll(T, s1, op[2], L)
       [] k = "dns"     -> \* resolver stored new results and ran its onUpdate callback
             [st EXCEPT !.dns = Range(op[2]), !.dirty = TRUE]
       [] k = "block"   -> \* BlockRemote
@@ -147,12 +180,12 @@ Apply(T, st, op) ==
 \* observations of one history: after every rebuild, the reference lists and the machine lists
 \* (the successor state is passed as an operator argument so that TLC evaluates it once)
 RECURSIVE Run(_, _, _)
-RunStep(T, s2, ops) ==
+RunStep(T, s1, s2, ops) ==
     IF Head(ops)[1] = "rebuild"
     THEN << [addrs |-> RefAddrs(T, Head(ops)[2], s2), relays |-> RefRelays(T, s2), lag |-> s2.lag,
-             maddrs |-> s2.addrs, mrels |-> s2.rels] >> \o Run(T, s2, Tail(ops))
+             maddrs |-> s2.addrs, mrels |-> s2.rels, resets |-> s1.rs] >> \o Run(T, s2, Tail(ops))
     ELSE Run(T, s2, Tail(ops))
-Run(T, st, ops) == IF ops = <<>> THEN <<>> ELSE RunStep(T, Apply(T, st, Head(ops)), ops)
+Run(T, st, ops) == IF ops = <<>> THEN <<>> ELSE RunStep(T, st, Apply(T, st, Head(ops)), ops)
 
 -----------------------------------------------------------------------------
 (* Vector mode: the input lattice *)
@@ -201,6 +234,43 @@ Long(p) == << <<"rep", 1, <<31, 32, 41, 42, 51, 52, 61, 62, 71, 72, 33, 43, 11, 
               <<"rebuild", p>>, <<"prepend", 1, 73>>, <<"prepend", 1, 21>>, <<"rebuild", (p + 1) % 4>>,
               <<"relay", 2, <<3, 2, 1, 3, 2, 1, 3, 2, 1, 3, 2, 1>>>>, <<"rebuild", p>> >>
 
+\* Owner shapes and ResetForOwner.  An owner's contribution is built by the calls that create its cache piecewise:
+\* nothing; static-host style prepends (v4 only / v6 only / a 4-in-6 literal / both); learned only; relays only; a lighthouse
+\* message (both per-family caches exist, possibly empty); mixtures.  Every step is followed by a rebuild; then the owner is
+\* reset, something is reported again, and the other owner is reset.
+ShapeMenu(o) == << << >>,
+                   << <<"prepend", o, 31>> >>,
+                   << <<"prepend", o, 52>>, <<"prepend", o, 31>> >>,
+                   << <<"prepend", o, 11>> >>,
+                   << <<"prepend", o, 21>>, <<"prepend", o, 82>> >>,
+                   << <<"prepend", o, 91>> >>,
+                   << <<"prepend", o, 12>>, <<"prepend", o, 61>> >>,
+                   << <<"learn", o, 61>> >>,
+                   << <<"learn", o, 82>> >>,
+                   << <<"relay", o, <<2, 3>>>> >>,
+                   << <<"rep", o, <<11, 82>>>> >>,
+                   << <<"rep", o, <<41>>>> >>,
+                   << <<"learn", o, 22>>, <<"prepend", o, 11>> >>,
+                   << <<"learn", o, 72>>, <<"prepend", o, 81>>, <<"relay", o, <<1>>>> >>,
+                   << <<"learn", o, 12>>, <<"prepend", o, 32>> >> >>
+NS == 15
+ReAddMenu(o) == << << >>, << <<"prepend", o, 22>> >>, << <<"prepend", o, 42>> >>, << <<"rep", o, <<82, 71>>>> >> >>
+RECURSIVE WithRebuilds(_, _)
+WithRebuilds(ops, p) == IF ops = <<>> THEN <<>> ELSE << Head(ops), <<"rebuild", p>> >> \o WithRebuilds(Tail(ops), (p + 1) % 4)
+Other(o) == 3 - o
+ShapeHist(o, s, s2, ia, p) ==
+    WithRebuilds(ShapeMenu(Other(o))[s2] \o ShapeMenu(o)[s] \o << <<"reset", o>> >> \o ReAddMenu(o)[ia]
+                 \o << <<"reset", Other(o)>>, <<"reset", o>> >>, p)
+
+\* Static hosts: the list belongs to a host of static_host_map, ourselves = owner 1; (re)loads replace the literals
+StaticMenu == << <<31>>, <<11>>, <<82, 12>>, <<31, 12>>, <<91>>, <<52, 61, 21>>, << >> >>
+OtherMenu  == << << >>, << <<"rep", 2, <<31, 11>>>> >>, << <<"learn", 2, 61>> >>, << <<"learn", 1, 82>> >>,
+                 << <<"relay", 2, <<1>>>>, <<"learn", 2, 22>> >> >>
+StaticHist(i0, io, i1, i2, p) ==
+    << <<"static", 1, StaticMenu[i0]>> >> \o OtherMenu[io] \o << <<"rebuild", p>>,
+       <<"static", 1, StaticMenu[i1]>>, <<"rebuild", (p + 1) % 4>>,
+       <<"static", 1, StaticMenu[i2]>>, <<"rebuild", p>> >>
+
 VARIABLES in, exp
 vars == <<in, exp>>
 
@@ -217,18 +287,26 @@ Init == \/ in = [kind |-> "table"] /\ exp = StdTab
                  /\ in = [kind |-> "hist", ops |-> Hist(i1, i2, il, id, ib, ir, p, ((H(i1, i2, il, ib, p) + id + ir + d) % NC) + 1)]
                  /\ exp = Run(StdTab, EmptySt, in.ops)
         \/ \E p \in 0..3 : in = [kind |-> "hist", ops |-> Long(p)] /\ exp = Run(StdTab, EmptySt, in.ops)
+        \/ \E o \in Owners, s \in 1..NS, s2 \in 1..NS, ia \in 1..4 :
+              /\ Thorough \/ (s + 2 * s2 + o) % 4 = ia - 1
+              /\ in = [kind |-> "hist", ops |-> ShapeHist(o, s, s2, ia, (s + s2 + ia) % 4)]
+              /\ exp = Run(StdTab, EmptySt, in.ops)
+        \/ \E i0 \in 1..6, io \in 1..5, i1 \in 1..7, i2 \in 1..7, p \in 0..3 :
+              /\ Thorough \/ (i2 = ((i0 + 2 * io + 3 * i1) % 7) + 1 /\ p = (i0 + io + i1) % 4)
+              /\ in = [kind |-> "static", ops |-> StaticHist(i0, io, i1, i2, p)]
+              /\ exp = Run(StdTab, EmptySt, in.ops)
 Next == UNCHANGED vars
 Spec == Init /\ [][Next]_vars
 
 \* the machine refines the reference on every vector (outside the lag window)
-Link == in.kind = "hist" =>
+Link == in.kind \in {"hist", "static"} =>
       \A k \in 1..Len(exp) : ~exp[k].lag => (exp[k].maddrs = exp[k].addrs /\ exp[k].mrels = exp[k].relays)
 \* the integer packing of the key preserves the order of the statement's key
 KeyPacking == in.kind = "table" =>
       \A p \in 0..3 : \A x, y \in {10 * a + q : a \in 1..8, q \in 1..2} :
           LexLess(Key(StdTab, p, x), Key(StdTab, p, y)) <=> IntKey(StdTab, p, x) < IntKey(StdTab, p, y)
 \* the reference list itself: no duplicates, nothing blocked is computed by construction; strictly increasing keys
-NoDup == in.kind = "hist" =>
+NoDup == in.kind \in {"hist", "static"} =>
     \A k \in 1..Len(exp) : Cardinality(Range(exp[k].addrs)) = Len(exp[k].addrs)
                            /\ Cardinality(Range(exp[k].relays)) = Len(exp[k].relays)
 =============================================================================
